@@ -204,10 +204,10 @@ def split_groups(path, nshards, min_events=1500):
     return out
 
 
-def run_trace(trace_path, nshards=8, timeout=3000, module="TzRsTrace"):
+def run_trace(trace_path, nshards=8, timeout=3000, module="TzRsTrace", min_events=1500):
     """Validate an ndjson trace against the trace specification with TLC (one single-worker JVM per shard).
     Returns dict(events, states, bad=[(global_index0, tag, line_text)])."""
-    shards = split_groups(trace_path, nshards)
+    shards = split_groups(trace_path, nshards, min_events)
     t0 = time.time()
     procs = []
     for (p, off, n) in shards:
@@ -351,7 +351,7 @@ def match_known(known, pid, v):
     return None
 
 
-def run_pipeline(res, binary, name, gen_lines=None, vec_path=None, nshards=8, validate=True):
+def run_pipeline(res, binary, name, gen_lines=None, vec_path=None, nshards=8, validate=True, min_events=1500):
     """Execute a batch of events against the crate and validate the recording with the trace spec.
     gen_lines: iterable of event dicts (impl -> spec direction).  vec_path: ndjson of TLC-emitted vectors
     (spec -> impl direction; compared natively through "x", and also trace-validated when validate)."""
@@ -378,7 +378,7 @@ def run_pipeline(res, binary, name, gen_lines=None, vec_path=None, nshards=8, va
                 if e.get("m") == 0:
                     res.violation("vector-mismatch", strip(e), dict(expected=e.get("x")))
     if validate:
-        tr = run_trace(outp, nshards=nshards)
+        tr = run_trace(outp, nshards=nshards, min_events=min_events)
         if vec_path is None:
             res.events += tr["events"]
         res.trace_states += tr["states"]
